@@ -10,9 +10,10 @@
   * An `op_*` function returns `Res.ok stack'` (returned True), `Res.fail` (returned False) or
     `Res.err e` (raised).  `evaluate` returns `Out.accept/reject/err/outOfFuel`.
   * Hash functions, signature checks and the transaction context are fields of `Env`.
-  * `Cfg` holds the deviation flags of the C07 findings that are proposed as `fix:` patches
-    (DESIGN 2.3): `Cfg.repaired` is the code with work/C07/fix-F07{a,c,d}.diff applied,
-    `Cfg.asIs` the code before them.  F07b (op_2rot copies) is a known finding: the model
+  * `Cfg` holds the deviation flags of the C07 and C06 findings that are proposed as `fix:` patches
+    (DESIGN 2.3): `Cfg.repaired` is the code with work/C07/fix-F07{a,c,d}.diff and
+    work/C06/fix-F06{a,c,d,e,f,g}.diff applied, `Cfg.preC06` the code with only the C07 patches,
+    `Cfg.asIs` the code before the C07 patches.  F07b (op_2rot copies) is a known finding: the model
     reproduces today's behaviour under every configuration.
   * Dispatch tables and timelock constants come from Buidl.Gen.Op (re-extracted from /repo).
 -/
@@ -46,10 +47,24 @@ structure Cfg where
   finalCastToBool   : Bool   -- F07a: final stack test uses op_verify instead of `== b""`
   pickRollRejectNeg : Bool   -- F07c: op_pick / op_roll refuse a negative index
   csvDisableIsNop   : Bool   -- F07d: op_checksequenceverify treats an operand with bit 31 as a NOP
+  -- C06 (work/C06/fix-F06*.diff)
+  multisigFailBranch  : Bool := true  -- F06a: a signature that no remaining key verifies fails op_checkmultisig
+  witnessNeedsEmptySig : Bool := true -- F06c: verify_input refuses a ScriptSig on a native witness program
+  p2shPushOnly        : Bool := true  -- F06d: verify_input refuses a p2sh ScriptSig with an opcode above OP_16
+  nestedWitnessAlone  : Bool := true  -- F06e: a witness program nested in p2sh is the only ScriptSig element
+  triggersOnlyAtEnd   : Bool := true  -- F06f: witness programs are recognised only when no command remains
+  tapLeafRawBytes     : Bool := true  -- F06g: the tap leaf hash commits to the witness' script bytes
 deriving DecidableEq, Repr
 
-def Cfg.repaired : Cfg := ⟨true, true, true⟩
-def Cfg.asIs : Cfg := ⟨false, false, false⟩
+/-- /repo with every proposed C07 and C06 patch applied -/
+def Cfg.repaired : Cfg := { finalCastToBool := true, pickRollRejectNeg := true, csvDisableIsNop := true }
+/-- /repo before the C07 patches (C06 flags repaired) -/
+def Cfg.asIs : Cfg := { finalCastToBool := false, pickRollRejectNeg := false, csvDisableIsNop := false }
+/-- /repo at a5beaa1: C07 patches applied, none of the C06 patches -/
+def Cfg.preC06 : Cfg :=
+  { finalCastToBool := true, pickRollRejectNeg := true, csvDisableIsNop := true,
+    multisigFailBranch := false, witnessNeedsEmptySig := false, p2shPushOnly := false,
+    nestedWitnessAlone := false, triggersOnlyAtEnd := false, tapLeafRawBytes := false }
 
 /-- transaction context, hashes and signature oracles -/
 structure Env where
@@ -75,9 +90,10 @@ structure Env where
   schnorrOK : Bytes → Nat → Bytes → Bool := fun _ _ _ => false
   /-- `ControlBlock.parse(b)` raises -/
   cbErr : Bytes → Option Err := fun _ => none
-  /-- `control_block.external_pubkey(tap_script)`: (x-only key of the tweak point,
+  /-- `control_block.external_pubkey(tap_script)` for a control block and the script serialisation
+      that `TapLeaf.hash` hashes (`tap_script.raw_serialize()`): (x-only key of the tweak point,
       `tweak_point.parity == control_block.parity`) -/
-  tapCommit : Bytes → Script.Script → Except Err (Bytes × Bool) := fun _ _ => .error .valueError
+  tapCommit : Bytes → Bytes → Except Err (Bytes × Bool) := fun _ _ => .error .valueError
 
 /-! ## number codec -/
 
@@ -376,26 +392,30 @@ def firstPkErr (env : Env) : List Bytes → Option Err
     | some e => some e
     | none => firstPkErr env ps
 
-/-- `while points: point = points.pop(0); if point.verify(z, sig): break` — the remaining points -/
-def consumePoints (env : Env) (der : Bytes) (ht : Nat) : List Bytes → List Bytes
-  | [] => []
-  | p :: ps => if env.ecdsaOK p ht der then ps else consumePoints env der ht ps
+/-- `while points: point = points.pop(0); if point.verify(z, sig): break` — `some rest` = the
+    points left after the one that verified, `none` = the loop ran out of points (its `else:`) -/
+def consumePoints (env : Env) (der : Bytes) (ht : Nat) : List Bytes → Option (List Bytes)
+  | [] => none
+  | p :: ps => if env.ecdsaOK p ht der then some ps else consumePoints env der ht ps
 
 /-- the `for der_signature, hash_type in der_signatures` loop inside the try block:
-    `none` = fell through to `stack.append(encode_num(1))` -/
-def multisigLoop (env : Env) : List (Bytes × Nat) → List Bytes → Option (Res Unit)
+    `none` = fell through to `stack.append(encode_num(1))`.  Without the F06a repair a signature
+    that no remaining point verifies just leaves no points. -/
+def multisigLoop (cfg : Cfg) (env : Env) : List (Bytes × Nat) → List Bytes → Option (Res Unit)
   | [], _ => none
   | (der, ht) :: sigs, points =>
     match env.sigPre der ht with
     | some e => some (.err e)
     | none =>
       if points.length = 0 then some .fail
-      else multisigLoop env sigs (consumePoints env der ht points)
+      else match consumePoints env der ht points with
+        | some rest => multisigLoop cfg env sigs rest
+        | none => if cfg.multisigFailBranch then some .fail else multisigLoop cfg env sigs []
 
 /-- `except (ValueError, SyntaxError): return False` -/
 def caught (e : Err) : Bool := e == .valueError
 
-def op_checkmultisig (env : Env) : Stack → Res Stack
+def op_checkmultisig (cfg : Cfg) (env : Env) : Stack → Res Stack
   | [] => .fail
   | top :: s =>
     let n := decodeNum top
@@ -413,13 +433,13 @@ def op_checkmultisig (env : Env) : Stack → Res Stack
         match firstPkErr env pks with
         | some e => if caught e then .fail else .err e
         | none =>
-          match multisigLoop env sigs pks with
+          match multisigLoop cfg env sigs pks with
           | some (.err e) => if caught e then .fail else .err e
           | some _ => .fail
           | none => .ok (encodeNum 1 :: s)
 
-def op_checkmultisigverify (env : Env) (s : Stack) : Res Stack :=
-  (op_checkmultisig env s).bind op_verify
+def op_checkmultisigverify (cfg : Cfg) (env : Env) (s : Stack) : Res Stack :=
+  (op_checkmultisig cfg env s).bind op_verify
 
 /-! ## timelocks (op.py:848-882, timelock.py) -/
 
@@ -428,13 +448,13 @@ def locktimeComparable (a b : Nat) : Bool :=
   (a < Gen.blockLimit && b < Gen.blockLimit) || (a ≥ Gen.blockLimit && b ≥ Gen.blockLimit)
 
 def op_checklocktimeverify (env : Env) (s : Stack) : Res Stack :=
-  if env.sequence = Gen.maxSequence then .fail else
+  if env.sequence = Gen.opMaxSequence then .fail else
   match s with
   | [] => .fail
   | top :: _ =>
     let element := decodeNum top
     if element < 0 then .fail
-    else if element.toNat > Gen.maxLocktime then .err .valueError      -- Locktime(element)
+    else if element.toNat > Gen.opMaxLocktime then .err .valueError      -- Locktime(element)
     else
       let stackLocktime := element.toNat
       if !locktimeComparable env.locktime stackLocktime then .fail
@@ -460,7 +480,7 @@ def op_checksequenceverify (cfg : Cfg) (env : Env) (s : Stack) : Res Stack :=
     else if cfg.csvDisableIsNop && (element.toNat &&& Gen.seqDisableFlag != 0) then .ok s
     else if cfg.csvDisableIsNop && !seqIsRelative env.sequence then .fail
     else if env.version < Gen.csvMinVersion then .fail
-    else if element.toNat > Gen.maxSequence then .err .valueError       -- Sequence(element)
+    else if element.toNat > Gen.opMaxSequence then .err .valueError       -- Sequence(element)
     else
       let stackSequence := element.toNat
       if !seqComparable env.sequence stackSequence then .fail
@@ -581,7 +601,7 @@ def applyStackFn (cfg : Cfg) (env : Env) : OpFn → Stack → Res Stack
   | .ripemd160 => op_ripemd160 env | .sha1 => op_sha1 env | .sha256 => op_sha256 env
   | .hash160 => op_hash160 env | .hash256 => op_hash256 env
   | .checksig => op_checksig env | .checksigverify => op_checksigverify env
-  | .checkmultisig => op_checkmultisig env | .checkmultisigverify => op_checkmultisigverify env
+  | .checkmultisig => op_checkmultisig cfg env | .checkmultisigverify => op_checkmultisigverify cfg env
   | .checksigSchnorr => op_checksig_schnorr env | .checksigverifySchnorr => op_checksigverify_schnorr env
   | .checksigaddSchnorr => op_checksigadd_schnorr env
   | .checklocktimeverify => op_checklocktimeverify env
@@ -644,14 +664,16 @@ def parseCommands (raw : Bytes) : Option (List Cmd) :=
 /-- P2PKHScriptPubKey(h160).commands -/
 def p2pkhCommands (h160 : Bytes) : List Cmd := [.op 0x76, .op 0xA9, .push h160, .op 0x88, .op 0xAC]
 
-/-- Witness.has_annex: `len(self.items) and self.items[-1][0] == 0x50` (truthiness) -/
+/-- Witness.has_annex: `len(self.items) >= 2 and self.items[-1][0] == 0x50` (F05f; the bound and
+    the tag are re-extracted: Gen.opAnnexMinItems, Gen.opAnnexTag) -/
 def hasAnnex (items : List Bytes) : Res Bool :=
+  if items.length < Gen.opAnnexMinItems then .ok false else
   match items.reverse with
   | [] => .ok false
   | last :: _ =>
     match last with
     | [] => .err .indexError
-    | b :: _ => .ok (b.toNat == 0x50)
+    | b :: _ => .ok (b.toNat == Gen.opAnnexTag)
 
 /-- `items[-k]` -/
 def fromEnd (items : List Bytes) (k : Nat) : Res Bytes :=
@@ -675,7 +697,7 @@ def p2shRule (env : Env) (st : St) (command : Bytes) : Step :=
   | _ => .ok st
 
 /-- the witness-program rules (script.py:224-276), tested on the stack after the p2sh rule -/
-def witnessRules (env : Env) (st : St) : Step :=
+def witnessRules (cfg : Cfg) (env : Env) (st : St) : Step :=
   match st.stack with
   | [s1, s0] =>
     if s0 = [] ∧ s1.length = 20 then
@@ -726,7 +748,11 @@ def witnessRules (env : Env) (st : St) : Step :=
           match Script.parse v with
           | none => .error (.err .runtimeError)
           | some (tapScript, _) =>
-          match env.tapCommit cb tapScript with
+          -- TapLeaf.hash serialises the parsed script (`raw_serialize`: its `raw` attribute if set)
+          match (if cfg.tapLeafRawBytes && rawTap ≠ [] then some rawTap else Script.rawSerialize tapScript) with
+          | none => .error (.err .valueError)
+          | some leafBytes =>
+          match env.tapCommit cb leafBytes with
           | .error e => .error (.err e)
           | .ok (xonly, parityOK) =>
             if !parityOK then .error .reject
@@ -745,7 +771,9 @@ def step (cfg : Cfg) (env : Env) (st : St) (command : Cmd) : Step :=
   | .push b =>
     match p2shRule env { st with stack := b :: st.stack } b with
     | .error o => .error o
-    | .ok st => witnessRules env st
+    | .ok st =>
+      -- F06f repaired: `if len(commands) > 0: continue`
+      if cfg.triggersOnlyAtEnd && !st.cmds.isEmpty then .ok st else witnessRules cfg env st
 
 /-- the test after the loop -/
 def finalTest (cfg : Cfg) (stack : Stack) : Out :=
@@ -776,15 +804,59 @@ def evaluate (cfg : Cfg) (env : Env) (commands : List Cmd) (wit : List Bytes) (f
   run cfg env fuel { cmds := commands, stack := [], alt := [],
                      wit := if wit.isEmpty then none else some wit, tap := false }
 
+/-! ## Tx.verify_input (tx.py) -/
+
+/-- Script.is_p2sh / is_p2wpkh / is_p2wsh / is_p2tr on a command list -/
+def isP2sh : List Cmd → Bool
+  | [.op 0xA9, .push h, .op 0x87] => h.length == 20
+  | _ => false
+def isP2wpkh : List Cmd → Bool
+  | [.op 0x00, .push h] => h.length == 20
+  | _ => false
+def isP2wsh : List Cmd → Bool
+  | [.op 0x00, .push h] => h.length == 32
+  | _ => false
+def isP2tr : List Cmd → Bool
+  | [.op 0x51, .push h] => h.length == 32
+  | _ => false
+/-- Script.is_witness_script -/
+def isWitnessScript (c : List Cmd) : Bool := isP2wpkh c || isP2wsh c
+
+/-- `isinstance(command, int) and command > 96` for some command -/
+def hasOpAbove16 (scriptSig : List Cmd) : Bool :=
+  scriptSig.any fun c => match c with | .op n => decide (n > 96) | .push _ => false
+
+/-- `len(commands) > 1 and isinstance(commands[-1], bytes) and
+    RedeemScript.convert(commands[-1]).is_witness_script()` -/
+def nestedWitnessNotAlone (scriptSig : List Cmd) : Bool :=
+  decide (scriptSig.length > 1) &&
+  (match scriptSig.getLast? with
+   | some (.push b) => (match parseCommands b with
+                        | some cs => isWitnessScript cs
+                        | none => false)
+   | _ => false)
+
+/-- the structural tests of the repaired Tx.verify_input; `true` = `return False` -/
+def structuralReject (cfg : Cfg) (scriptSig spk : List Cmd) : Bool :=
+  (isP2sh spk && ((cfg.p2shPushOnly && hasOpAbove16 scriptSig) ||
+                  (cfg.nestedWitnessAlone && nestedWitnessNotAlone scriptSig))) ||
+  (cfg.witnessNeedsEmptySig && (isWitnessScript spk || isP2tr spk) && !scriptSig.isEmpty)
+
+/-- Tx.verify_input(i): `(script_sig + script_pubkey).evaluate(tx, i)` after the structural tests -/
+def verifyInput (cfg : Cfg) (env : Env) (scriptSig spk : List Cmd) (wit : List Bytes) (fuel : Nat) : Out :=
+  if structuralReject cfg scriptSig spk then .reject
+  else evaluate cfg env (scriptSig ++ spk) wit fuel
+
 /-- did a P2SH / witness-program rule fire for this push (used by the driver to tell the
     harness that a program is outside C07's scope)? -/
-def triggers (st : St) (b : Bytes) : Bool :=
+def triggers (cfg : Cfg) (st : St) (b : Bytes) : Bool :=
   (match st.cmds with
    | [.op 0xA9, .push h160, .op 0x87] => h160.length == 20
    | _ => false) ||
-  (match b :: st.stack with
-   | [s1, s0] => (s0 == [] && (s1.length == 20 || s1.length == 32)) || (s0 == [0x01] && s1.length == 32)
-   | _ => false)
+  ((!cfg.triggersOnlyAtEnd || st.cmds.isEmpty) &&
+   (match b :: st.stack with
+    | [s1, s0] => (s0 == [] && (s1.length == 20 || s1.length == 32)) || (s0 == [0x01] && s1.length == 32)
+    | _ => false))
 
 /-- `run` that also reports whether any rule fired -/
 def runTrig (cfg : Cfg) (env : Env) : Nat → St → Bool → Out × Bool
@@ -796,7 +868,7 @@ def runTrig (cfg : Cfg) (env : Env) : Nat → St → Bool → Out × Bool
       | 0 => (.outOfFuel, trig)
       | fuel + 1 =>
         let st0 := { st with cmds := rest }
-        let trig := trig || (match c with | .push b => triggers st0 b | _ => false)
+        let trig := trig || (match c with | .push b => triggers cfg st0 b | _ => false)
         match step cfg env st0 c with
         | .error o => (o, trig)
         | .ok st' => runTrig cfg env fuel st' trig
